@@ -199,4 +199,30 @@ theorem one_winner (s : Store) (hi : Inv s) (e : EventRec) (off : Nat)
   unfold storeEvent
   rw [hr]
 
+/-! ### a query reads ONE snapshot -/
+
+/-- an ids query whose every lookup went to a fresh snapshot: `states[i]` is the committed store at the
+instant the i-th listed id is looked up (what the ids plan of `find_events` did before repair #33) -/
+def idsFresh (states : List Store) (ids : List Bytes) : List Bytes :=
+  ((ids.zip states).filterMap fun (id, st) => findById st.db.live id).map (·.e.id)
+
+/-- the same query answered from one committed state -/
+def idsIn (st : Store) (ids : List Bytes) : List Bytes := (ids.filterMap (findById st.db.live)).map (·.e.id)
+
+/-- why the query must keep to the transaction it opened: if the three lookups of `ids = [x, a, y]` fall
+before, between and after two stores, the answer `{a, y}` is the answer in NO committed state — neither
+before both stores (`{a}`), nor between them (`{x, a}`), nor after both (`{x, a, y}`).  The model's
+`findEvents` reads one state by construction; the schedule is forced on the real store by the C14 check. -/
+theorem ids_fresh_snapshots_witness :
+    let a : EventRec := ⟨List.replicate 32 1, List.replicate 32 9, [], 1, 5, [], []⟩
+    let x : EventRec := ⟨List.replicate 32 2, List.replicate 32 9, [], 1, 6, [], []⟩
+    let y : EventRec := ⟨List.replicate 32 3, List.replicate 32 9, [], 1, 7, [], []⟩
+    let s0 := run {} [.store a]
+    let s1 := run {} [.store a, .store x]
+    let s2 := run {} [.store a, .store x, .store y]
+    let ids := [x.id, a.id, y.id]
+    idsFresh [s0, s0, s2] ids = [a.id, y.id] ∧
+    idsIn s0 ids ≠ [a.id, y.id] ∧ idsIn s1 ids ≠ [a.id, y.id] ∧ idsIn s2 ids ≠ [a.id, y.id] := by
+  decide +kernel
+
 end Pocket.C14
